@@ -6,7 +6,6 @@ CONSTANTS
   Variant = "fixed"
   Kinds <- AllKinds
   Forms <- QuickForms
-  SubRuns <- Yes
   Founds <- QuickFounds
 INVARIANT TypeOK
 INVARIANT Recoverable
